@@ -266,7 +266,7 @@ def run(chk):
         if cases:
             chk.sample(dict(kind=kind, case=cases[len(cases) // 2]))
     # rechunker
-    rs = dict(G=6 if quick else 8, MaxRows=3 if quick else 4, MaxChunks=2 if quick else 3, Kind="stream")
+    rs = dict(G=6 if quick else 7, MaxRows=3, MaxChunks=2 if quick else 3, Kind="stream")
     r, cases = V.tlc_cases("StreamCases", rs, ["Emit"], timeout=3000)
     chk.add_tlc(r, f"StreamCases {rs}")
     V.tlc_must_finish(r, "StreamCases")
